@@ -290,7 +290,7 @@ def reg_number(r):
     return r
 
 
-def compare(o, parsed, immw=64, optional=()):
+def compare(o, parsed, immw=64, optional=(), dec="llvm"):
     """AGREE / DISAGREE:<why> / UNKNOWN:<why> between the request o and one parsed disassembly"""
     want = canon_mnemonic(o["n"])
     got = canon_mnemonic(parsed["mnem"])
@@ -344,6 +344,18 @@ def compare(o, parsed, immw=64, optional=()):
     if eimm and dimm and len(eimm) == len(dimm):
         for e, d in zip(eimm, dimm):
             if (e - d) % (1 << immw) != 0: return f"DISAGREE:immediate {d} vs requested {e}"
+    # relative branches: a decoder cannot 'agree' with a label by its mnemonic - compute the target its output designates and compare it
+    # with the position of the label recorded in the observation (relative to the start of the instruction)
+    elab = [x[1] for x in exp if x[0] == "l"]
+    if elab:
+        if len(dimm) != 1 or eimm: return "UNKNOWN:branch operand text " + parsed["text"]
+        if dec == "llvm":
+            target = len(o["b"]) + dimm[0]                 # llvm-mc prints the displacement, relative to the end of the instruction
+        else:
+            w = 64 if o["m"] == 64 else 32                 # objdump prints the absolute target; the bytes are loaded at address 0
+            target = dimm[0] - (1 << w) if dimm[0] >= (1 << (w - 1)) else dimm[0]
+        if target != elab[0]:
+            return f"DISAGREE:branch target {target:+d} bytes from the instruction start, the label is at {elab[0]:+d}"
     # decorations
     k = [d for d in parsed["deco"] if re.fullmatch(r"k[0-7]", d)]
     if o["k"] and k != [f"k{o['k']}"]: return f"DISAGREE:mask {k} vs k{o['k']}"
@@ -360,7 +372,7 @@ def compare(o, parsed, immw=64, optional=()):
 PFX_LINE = r"^(lock|rep|repe|repne|wait|fwait|data16|data32|addr16|addr32|xacquire|xrelease|[cdefgs]s|notrack|rex64|bnd)\\b\\s*$"
 
 
-def judge_lines(o, lines, consumed_ok, immw, optional):
+def judge_lines(o, lines, consumed_ok, immw, optional, dec="llvm"):
     lines = [re.sub(r"#.*$", "", l).strip() for l in lines]
     lines = [l for l in lines if l]
     if not lines: return "DISAGREE:no instruction"
@@ -371,7 +383,7 @@ def judge_lines(o, lines, consumed_ok, immw, optional):
         main = [("f" + main[1].lstrip()[2:]) if main[1].lower().startswith("fn") else main[1]]       # wait + fnXXX = fXXX
     if len(main) != 1: return "DISAGREE:decodes to several instructions: " + " ; ".join(lines)
     p = parse_asm(main[0])
-    r = compare(o, p, immw, optional)
+    r = compare(o, p, immw, optional, dec)
     if r == "AGREE":
         pl = [l.lower() for l in lines if l not in main] + p["prefixes"]
         if bool(o["opt"] & 1) != ("lock" in pl) and not any(x["t"] == "r" and x.get("c") == "creg" for x in o["ops"]): return "DISAGREE:lock prefix"
@@ -394,7 +406,7 @@ def read_objdump(o, workdir, immw=64, optional=()):
         lines.append(txt); pos = off + ln
     if any("(bad)" in l for l in lines): return "DISAGREE:invalid encoding: " + " ; ".join(lines)
     # objdump prints prefixes in front of the mnemonic on one line
-    return judge_lines(o, lines, pos == n, immw, optional)
+    return judge_lines(o, lines, pos == n, immw, optional, "objdump")
 
 
 # ======================================================================================================================
